@@ -227,6 +227,8 @@ def formula_object(rng, pool, kind=None):
         return F.formula(seq, density=rho), "formula(%r, density=%r)" % (seq, rho)
     if kind == "natural":
         seq = pool.nested(rng.randint(0, 2))
+        while not F.formula(seq).mass > 0:      # a formula without mass has no natural density (outside the domain)
+            seq = pool.nested(rng.randint(0, 2))
         rho = pool.density()
         return F.formula(seq, natural_density=rho), "formula(%r, natural_density=%r)" % (seq, rho)
     if kind == "tag":
